@@ -193,6 +193,9 @@ func TestC13Witness(t *testing.T) {
 		f.Close()
 		if bad == "" {
 			st.Class("witness-no-longer-reproduces:" + c.id)
+			if kf.Listed(c.id) {
+				t.Logf("STALE: finding %s is listed as known but its witness (%s) satisfies the property now", c.id, c.what)
+			}
 			continue
 		}
 		st.NonTrivial(map[string]string{"finding": c.id, "observed": bad}, c.id, c.what)
